@@ -109,20 +109,28 @@ epk_like = st.one_of(
         "kty": st.one_of(st.sampled_from(["EC", "OKP", "RSA", "oct", "ec"]), anyv),
         "crv": st.one_of(st.sampled_from(jsonv.CURVES + ["P-255", "x25519"]), anyv),
         "x": st.one_of(b64ish, anyv), "y": st.one_of(b64ish, anyv), "d": b64ish}),
+    # a valid public key with optional JWK members of arbitrary type (use, key_ops, alg, kid, x5c ...)
+    st.tuples(st.sampled_from(["P-256", "P-384", "P-521", "secp256k1", "X25519", "X448"]),
+              st.dictionaries(st.sampled_from(["use", "key_ops", "alg", "kid", "x5c", "x5u", "x5t", "oth", "k", "n"]),
+                              st.one_of(anyv, st.lists(st.one_of(anyv, st.sampled_from(["sign", "deriveKey", "deriveBits"])), max_size=3)), min_size=1, max_size=3)).map(
+        lambda t: {**rk.export_jwk(fixed_keys()["ref"][t[0]], private=False), **t[1]}),
     st.sampled_from(["P-256", "P-384", "P-521", "secp256k1", "X25519", "X448", "Ed25519"]).map(
         lambda c: rk.export_jwk(fixed_keys()["ref"][c], private=False)),
 )
 valid_epk = st.sampled_from(["P-256", "P-384", "P-521", "secp256k1", "X25519", "X448"]).map(
     lambda c: rk.export_jwk(fixed_keys()["ref"][c], private=False))
+hostile_member = st.sampled_from([[["deriveKey"]], [{}], {"a": 1}, [1], 5, None, "", ["sign", ["x"]], [None], True, 1.5, "sig", ["deriveKey"], [[]]])
+valid_epk_plus = st.tuples(valid_epk, st.sampled_from(["use", "key_ops", "alg", "kid", "x5c", "x5u", "x5t", "x5t#S256", "oth", "d", "crv", "kty"]), hostile_member).map(
+    lambda t: {**t[0], t[1]: t[2]})
 p2c_like = st.one_of(st.integers(-2**70, 5000), st.integers(2**63, 2**66), anyv)
 
 member_value = {
     "alg": st.one_of(jws_alg, jwe_alg, anyv), "enc": st.one_of(jwe_enc, anyv), "zip": st.one_of(st.just("DEF"), anyv),
     "crit": st.one_of(st.lists(st.sampled_from(jsonv.HEADER_NAMES), max_size=3), st.lists(anyv, max_size=3), anyv),
-    "b64": st.one_of(st.booleans(), anyv), "epk": epk_like, "apu": st.one_of(b64ish, anyv), "apv": st.one_of(b64ish, anyv),
+    "b64": st.one_of(st.booleans(), anyv), "epk": st.one_of(epk_like, valid_epk_plus), "apu": st.one_of(b64ish, anyv), "apv": st.one_of(b64ish, anyv),
     "p2s": st.one_of(b64ish, anyv), "p2c": p2c_like, "iv": st.one_of(b64ish, anyv), "tag": st.one_of(b64ish, anyv),
     "kid": st.one_of(st.sampled_from(["oct32", "RSA", "P-256", "X25519", "nope"]), anyv), "skid": st.one_of(st.text(max_size=5), anyv),
-    "jwk": epk_like, "jku": st.one_of(st.just("https://a/b"), anyv), "x5c": st.one_of(st.lists(st.text(max_size=4), max_size=2), anyv),
+    "jwk": st.one_of(epk_like, valid_epk_plus), "jku": st.one_of(st.just("https://a/b"), anyv), "x5c": st.one_of(st.lists(st.text(max_size=4), max_size=2), anyv),
     "typ": anyv, "cty": anyv, "x5u": anyv, "x5t": anyv, "x5t#S256": anyv,
 }
 
@@ -142,7 +150,7 @@ def header_like(draw, kind):
     if isinstance(a, str) and kind == "jwe":
         # supply plausible algorithm-specific members so processing goes past the "required" checks
         if a.startswith("ECDH") and "epk" not in h and draw(st.integers(0, 3)):
-            h["epk"] = draw(st.one_of(epk_like, valid_epk))
+            h["epk"] = draw(st.one_of(epk_like, valid_epk, valid_epk_plus))
         if a.startswith("PBES2") and draw(st.booleans()):
             h.setdefault("p2s", draw(member_value["p2s"]))
             h.setdefault("p2c", draw(p2c_like))
@@ -229,7 +237,7 @@ def valid_tokens():
 @st.composite
 def g3_mutated(draw):
     idx = draw(st.integers(0, 14))
-    edit = draw(st.sampled_from(["set", "set", "set", "alg-swap", "alg-swap", "segment", "drop", "header-nonobject"]))
+    edit = draw(st.sampled_from(["set", "set", "set", "alg-swap", "alg-swap", "segment", "drop", "header-nonobject", "nested-set", "nested-set"]))
     name = draw(st.sampled_from(sorted(member_value) + ["alg", "enc", "alg", "epk", "zip", "p2c", "crit"]))
     value = draw(st.one_of(member_value[name], member_value[name], anyv))
     if edit == "alg-swap":
@@ -237,7 +245,13 @@ def g3_mutated(draw):
         value = draw(jwe_enc) if name == "enc" else draw(st.one_of(jwe_alg, jws_alg, st.integers(0, 50), st.integers(0, 50)))
     seg_i = draw(st.integers(0, 4))
     seg_v = draw(seg_any)
-    return {"gen": "G3", "idx": idx, "edit": edit, "name": name, "value": _tame(value), "seg_i": seg_i, "seg_v": seg_v}
+    out = {"gen": "G3", "idx": idx, "edit": edit, "name": name, "value": _tame(value), "seg_i": seg_i, "seg_v": seg_v}
+    if edit == "nested-set":
+        # a member of an embedded key (epk) gets a hostile value; tokens that carry an epk are preferred
+        out["idx"] = draw(st.sampled_from([9, 10, 14, 9, 10, 14, idx]))
+        out["sub"] = draw(st.sampled_from(["use", "key_ops", "alg", "kid", "x5c", "x5u", "x5t", "crv", "kty", "x", "y", "d", "oth"]))
+        out["value"] = _tame(draw(st.one_of(hostile_member, hostile_member, anyv)))
+    return out
 
 
 def build_g3(c):
@@ -262,6 +276,12 @@ def build_g3(c):
         del hdr[names[c["seg_i"] % len(names)]]
     elif e == "header-nonobject":
         hdr = c["value"]
+    elif e == "nested-set":
+        holders = [n for n, v in hdr.items() if isinstance(v, dict)]
+        if holders:
+            hdr[holders[c["seg_i"] % len(holders)]][c["sub"]] = c["value"]
+        else:
+            hdr["jwk"] = {"kty": "oct", "k": "AAAA", c["sub"]: c["value"]}
     if e == "segment":
         segs[c["seg_i"] % len(segs)] = c["seg_v"]
     else:
